@@ -22,7 +22,9 @@ CLAIM = dict(
           "real call from its recorded passes) and evaluation of the contract on every recorded pass of every shipped "
           "table. The property text (incl. the completeness clause with capacity 32*inlen+256) is evaluated on every "
           "implementation result as the search oracle."),
-    note=("Engines are parameters: completeness (whole input consumed) is checked on real runs of shipped tables, not proved; "
+    note=("Engines are parameters; with the Layer B engines plugged in (engineFor / engineForBack, contracts proved) the length clauses hold for every "
+          "call the whole-call model covers (whole_call_fwd_lengths, whole_call_back_lengths), and MCALL compares that model's return value, lengths "
+          "and output with the implementation (this found F36). Completeness (whole input consumed) is checked on real runs, not proved; "
           "backward: back_lengths (0<=inlen'<=length up to the first NUL, outlen'<=outlen) for any engine satisfying E1/E3; invalid "
           "arguments (NULL pointers, negative lengths) are outside the model's argument type."),
     technique="Lean 4 proof over a hand-written driver model with engines as parameters + trace-validation correspondence + oracle search",
